@@ -1142,13 +1142,14 @@ class Store:
         elif not self.emit_pinned:
             self.emit = emit
 
-    def _pin_emit(self):
-        """Mark the emit flags of all leaves below as set explicitly."""
+    def _pin_emit(self, pinned=True):
+        """Mark the emit flags of all leaves below as set explicitly
+        (or, with ``pinned=False``, as open to a new explicit request)."""
         if self.inner:
             for child in self.inner.values():
-                child._pin_emit()
+                child._pin_emit(pinned)
         else:
-            self.emit_pinned = True
+            self.emit_pinned = pinned
 
     def recursive_end_process(self, value):
         if isinstance(value.value, ParallelProcess):
